@@ -18,6 +18,7 @@ func runC02(p *core.Prog, r *core.Result) {
 		"R2.2 source files are compared by content hash: the verdict 'up to date' is returned exactly on equality of the recorded sum and the sum of the current contents; no modification time is consulted",
 		"R2.3 loading a target rewrites the record it has just read with every decision-relevant field (all but the documentation) unchanged, field by field over the record type: a load cannot drop the stamp dependents compare",
 		"R2.6 the verdict 'a dependency is out of date' is produced only where a dependency has no recorded stamp, changed in this build, or has a stamp different from the recorded one - nowhere else (no comparison of counts, no extra condition merged in after the loop)",
+		"R2.7 the stamp a loaded target reports to its dependents (targetInfo.stamp) is a persisted field of its record, verbatim (the combined stamp, or the plain data of a record written before combined stamps existed) - never a value recomputed at load, which differs from what dependents stored whenever the formula or the record format has changed since",
 		"R2.5 the current environment of a function (functionEnv) is not computed from anything reachable from loadFunction: it is taken only after every module has finished executing, so it is complete",
 		"R2.4 both sides of the environment comparison are produced by the same decoder/unpickler, and the persisted stamp by the same pickler as the current one",
 	}
@@ -60,6 +61,30 @@ func runC02(p *core.Prog, r *core.Result) {
 
 	// ---- R2.3
 	checkLoadRewritesRead(p, r, "R2.3")
+
+	// ---- R2.7 what a loaded target reports to its dependents is a persisted field, verbatim
+	if st := need(p, r, "R2.7", "", "targetInfo", "stamp"); st != nil {
+		n := 0
+		for _, ret := range core.ReturnsOf(st) {
+			vals := core.RetVals(ret)
+			if len(vals) != 1 {
+				continue
+			}
+			n++
+			v := vals[0]
+			isField := false
+			for _, f := range []string{"Stamp", "Data"} {
+				if core.LoadOfField(v, pkgRoot, "targetInfo", f) {
+					isField = true
+				}
+				if fv, ok := v.(*ssa.Field); ok && core.IsField(fv, pkgRoot, "targetInfo", f) {
+					isField = true
+				}
+			}
+			r.Check(isField, "R2.7", fmt.Sprintf("dawn.(targetInfo).stamp#return-%d", n), p.InstrPos(ret), "the stamp reported after a load is a field of the record as it was read", "the stamp a loaded target reports is recomputed at load instead of read from its record: dependents compare it with what they stored when the record was written, and for records written by another version of the formula (records from before the combined stamp existed carry only Data) the two differ although nothing changed - every dependent of an up-to-date target is re-executed once")
+		}
+		r.Floor("R2.7", n, 1, "returns of targetInfo.stamp")
+	}
 
 	// ---- R2.4
 	nDec, nEnc := 0, 0
